@@ -37,6 +37,9 @@ from tornado.log import app_log, gen_log
 from tornado.util import GzipDecompressor
 
 CR_OR_LF_RE = re.compile(b"\r|\n")
+# Bytes (as latin-1 text) that may appear in a serialized field value: no
+# control characters other than HTAB.
+_FIELD_VALUE_CHARS_RE = re.compile(r"[\t\x20-\x7e\x80-\xff]*")
 
 
 class _QuietException(Exception):
@@ -467,9 +470,14 @@ class HTTP1Connection(httputil.HTTPConnection):
         # TODO: headers are supposed to be of type str, but we still have some
         # cases that let bytes slip through. Remove these native_str calls when those
         # are fixed.
-        for n, _ in headers.get_all():
+        if not self.is_client and start_line[2]:
+            if not httputil._ABNF.reason_phrase.fullmatch(start_line[2]):
+                raise ValueError("Illegal reason phrase: %r" % (start_line[2],))
+        for n, v in headers.get_all():
             if not httputil._ABNF.field_name.fullmatch(native_str(n)):
                 raise ValueError("Illegal header name: %r" % n)
+            if not _FIELD_VALUE_CHARS_RE.fullmatch(native_str(v)):
+                raise ValueError("Illegal characters in header value: %r" % v)
         header_lines = (
             native_str(n) + ": " + native_str(v) for n, v in headers.get_all()
         )
